@@ -5,50 +5,12 @@
    (want / wct / wxt: byte count, digest, bytes when small, error class and text), and the
    totally ordered event log `ev` (harness events + hook events of minify.VerifTrace).
    The spec steps through the events (one TLC state per event); `st` is the abstract
-   session state; the property's clauses are invariants evaluated in every state.
-
-   events  [k, n, c, e, t, b]:
-     WriteCall n | WriteRet n e t | CloseCall | CloseRet e t | SinkWrite n e t(digest so far) b
-     Read n c e t b | SrcRead n e | Ret n e t b | Commit n(status) c(Content-Length, -1 none) t
-     ErrFunc n e t | HandlerRet | GateOpen | Blocked | Panic
-     hook.writer.exit e t | hook.reader.exit e t | hook.writer.closewaited
-     hook.response.select t | hook.response.passthrough t                                *)
-EXTENDS TraceIO, SequencesExt
+   session state; the property's clauses (module StreamRel, shared with the design model
+   Stream.tla) are invariants evaluated in every state. *)
+EXTENDS TraceIO, SequencesExt, StreamRel
 VARIABLES l, i, st
 
-St0(h0) == [n |-> 0, h |-> h0, b |-> <<>>,
-            closecall |-> FALSE, closeret |-> FALSE, closee |-> "", closet |-> "", lastn |-> -1, waited |-> FALSE,
-            exit |-> FALSE, exite |-> "", exitt |-> "",
-            late |-> FALSE, commit |-> FALSE, ccl |-> -1,
-            sel |-> "", selt |-> "",
-            ret |-> FALSE, rete |-> "", rett |-> "",
-            readend |-> "", readt |-> "",
-            errfunc |-> FALSE, erre |-> "", errt |-> "", errsame |-> 0]
 Start(k) == IF k <= N THEN St0(Trace[k].h0) ELSE St0("")
-
-Apply(s, e, S) ==
-  CASE e.k = "SinkWrite" ->
-         IF e.e = "nil"
-         THEN [s EXCEPT !.n = @ + e.n, !.h = e.t, !.b = IF S.small THEN @ \o e.b ELSE @,
-                        !.late = @ \/ (s.closeret /\ e.n > 0), !.lastn = e.n]
-         ELSE [s EXCEPT !.late = @ \/ (s.closeret /\ e.n > 0), !.lastn = e.n]
-    [] e.k = "Read" ->
-         IF e.e = "nil"
-         THEN [s EXCEPT !.n = @ + e.n, !.h = e.t, !.b = IF S.small THEN @ \o e.b ELSE @]
-         ELSE [s EXCEPT !.readend = e.e, !.readt = e.t]
-    [] e.k = "Ret" ->
-         [s EXCEPT !.ret = TRUE, !.rete = e.e, !.rett = e.t, !.n = e.n,
-                   !.h = IF e.e = "nil" THEN e.t ELSE @, !.b = IF S.small THEN e.b ELSE @]
-    [] e.k = "CloseCall" -> [s EXCEPT !.closecall = TRUE]
-    [] e.k = "hook.writer.closewaited" -> [s EXCEPT !.waited = TRUE]
-    [] e.k = "CloseRet" -> [s EXCEPT !.closeret = TRUE, !.closee = e.e, !.closet = e.t]
-    [] e.k \in {"hook.writer.exit", "hook.reader.exit"} -> [s EXCEPT !.exit = TRUE, !.exite = e.e, !.exitt = e.t]
-    [] e.k = "hook.response.select" -> [s EXCEPT !.sel = "select", !.selt = e.t]
-    [] e.k = "hook.response.passthrough" -> [s EXCEPT !.sel = "passthrough", !.selt = e.t]
-    [] e.k = "Commit" -> IF s.commit THEN s ELSE [s EXCEPT !.commit = TRUE, !.ccl = e.c]
-    [] e.k = "ErrFunc" -> [s EXCEPT !.errfunc = TRUE, !.erre = e.e, !.errt = e.t, !.errsame = e.n]
-    [] OTHER -> s
-
 Init == l = 1 /\ i = 1 /\ st = Start(1)
 Next == /\ l <= N
         /\ IF i <= Len(Trace[l].ev)
@@ -56,91 +18,13 @@ Next == /\ l <= N
            ELSE /\ l' = l + 1 /\ i' = 1 /\ st' = Start(l + 1)
 Spec == Init /\ [][Next]_<<l, i, st>>
 
------------------------------------------------------------------------------
-RespModes == {"response", "mw", "mwerr"}
-FF(S) == S.ff = 0 /\ S.sf < 0                      \* no fault injected in this session
-Same(s, w, S) == s.n = w.n /\ s.h = w.h /\ (S.small => s.b = w.b)
-Nothing(S) == [n |-> 0, h |-> S.h0, b |-> <<>>]
-Pass(S) == [n |-> S.inn, h |-> S.inh, b |-> S.in]   \* pass-through: the bytes written, unchanged
-\* the property's selection rule: "picks the minifier from Content-Type, falling back to the request
-\* path extension" (xt = mime.TypeByExtension(path.Ext(RequestURI)), computed by the standard library)
-ByCT(S) == S.ct # ""
-Sel(S) == IF ByCT(S) THEN S.wct ELSE S.wxt          \* plain call with the mediatype the rule selects
-Minifies(S) == Sel(S).e # "notexist"
-\* Content-Type present but without a minifier while the extension has one: the sentence can be read
-\* either way (fall back, or pass through), so both outcomes are accepted
-Ambiguous(S) == ByCT(S) /\ S.wct.e = "notexist" /\ S.wxt.e # "notexist"
-\* what the plain reader-to-writer call produces for this session
-Ref(S) == IF S.mode \in RespModes
-          THEN IF S.nwrite = 0 THEN Nothing(S) ELSE IF Minifies(S) THEN Sel(S) ELSE Pass(S)
-          ELSE S.want
-RefErr(S) == IF S.mode \in RespModes THEN (IF S.nwrite = 0 \/ ~Minifies(S) THEN [e |-> "nil", t |-> ""] ELSE [e |-> Sel(S).e, t |-> Sel(S).t])
-             ELSE [e |-> S.want.e, t |-> S.want.t]
-Delivered(s, S) == IF S.mode \in RespModes /\ Ambiguous(S) /\ S.nwrite > 0
-                   THEN Same(s, Pass(S), S) \/ Same(s, S.wxt, S)
-                   ELSE Same(s, Ref(S), S)
-Worker(s, S) == S.mode = "writer" \/ (S.mode \in RespModes /\ s.sel = "select")
-
-\* ---- clauses evaluated when an event is about to be consumed (state before the event) ----
-EventOK(s, e, S) ==
-  CASE e.k = "SinkWrite" ->
-         \* C12 "deliver all output ... by the time Close returns"
-         (~(s.closeret /\ e.n > 0)) \/ Reject(l, "NoWriteAfterClose: output reached the sink after Close returned")
-    [] e.k = "CloseRet" /\ S.mode \in (RespModes \cup {"writer"}) ->
-         /\ (Worker(s, S) => s.exit) \/ Reject(l, "CloseWaits: Close returned before the minifier finished")
-         \* C12 "... and the minifier's error by the time Close returns" (hook: error stored by the worker)
-         /\ (Worker(s, S) /\ s.exit /\ e.e # "unseen" => (e.e = s.exite /\ e.t = s.exitt))
-              \/ Reject(l, "CloseWaits: Close did not return the minifier's error")
-         \* C12 "byte-identical output to the plain reader-to-writer call", complete when Close returns
-         /\ (FF(S) => Delivered(s, S)) \/ Reject(l, "ChunkingInvariance: bytes delivered when Close returned differ from the plain call")
-    [] e.k = "Blocked" -> Reject(l, "CloseReturned: the call blocked")
-    [] e.k = "Panic" -> Reject(l, "panic")
-    [] OTHER -> TRUE
-StepOK == (l <= N /\ i <= Len(Trace[l].ev)) => EventOK(st, Trace[l].ev[i], Trace[l])
-
-\* ---- clauses evaluated at the end of a session ----
-FinalOK(s, S) ==
-  LET r == RefErr(S) IN
-  CASE S.mode = "writer" ->
-         /\ s.closeret \/ Reject(l, "CloseReturned: Close did not return")
-         /\ (FF(S) => (s.closee = r.e /\ s.closet = r.t)) \/ Reject(l, "CloseWaits: Close result differs from the plain call's error")
-         /\ (FF(S) => Delivered(s, S)) \/ Reject(l, "ChunkingInvariance: final bytes differ from the plain call")
-    [] S.mode = "reader" ->
-         /\ s.readend # "" \/ Reject(l, "CloseReturned: the consumer never saw the end of the stream")
-         /\ (FF(S) => Delivered(s, S)) \/ Reject(l, "ChunkingInvariance: bytes read differ from the plain call")
-         /\ (FF(S) => IF r.e = "nil" THEN s.readend = "eof" ELSE (s.readend = r.e /\ s.readt = r.t))
-              \/ Reject(l, "ChunkingInvariance: reader ended differently from the plain call")
-    [] S.mode \in RespModes ->
-         /\ s.closeret \/ Reject(l, "CloseReturned: Close / ServeHTTP did not return")
-         /\ (FF(S) => Delivered(s, S)) \/ Reject(l, "SelectionRule/ChunkingInvariance: response body differs from the plain call with the selected mediatype")
-         /\ (FF(S) /\ S.mode = "response" /\ ~Ambiguous(S) => (s.closee = r.e /\ s.closet = r.t))
-              \/ Reject(l, "CloseWaits: Close result differs from the plain call's error")
-         /\ (FF(S) /\ S.mode = "mwerr" /\ ~Ambiguous(S) => IF r.e = "nil" THEN ~s.errfunc ELSE (s.errfunc /\ s.erre = r.e /\ s.errt = r.t))
-              \/ Reject(l, "CloseWaits: MiddlewareWithError did not hand the minifier's error to the error function")
-         \* C12 "the middleware removes a stale Content-Length": committed length absent, or not stale
-         /\ (FF(S) /\ S.mode \in {"mw", "mwerr"} /\ s.commit /\ r.e = "nil" => (s.ccl = -1 \/ s.ccl = s.n))
-              \/ Reject(l, "ContentLengthGone: response committed with a Content-Length that differs from the body")
-    [] S.mode \in {"bytes", "string"} ->
-         /\ s.ret \/ Reject(l, "CloseReturned: no result")
-         /\ (IF r.e = "nil" THEN s.rete = "nil" /\ Same(s, S.want, S) ELSE (s.rete = r.e /\ s.rett = r.t))
-              \/ Reject(l, "ChunkingInvariance: helper result differs from the plain call")
-    [] OTHER -> Reject(l, "unknown mode")
-EndOK == (l <= N /\ i = Len(Trace[l].ev) + 1) => FinalOK(st, Trace[l])
-
-\* ---- design conformance (level D, information only: never a verdict) ----
-\* Facts of the design model Stream.tla that are visible in the event order.  A mismatch means the model no longer
-\* describes the code (DRIFT in the evidence); the property itself is judged by StepOK / EndOK only.
+\* clauses evaluated when an event is about to be consumed (state before the event)
+StepOK == (l <= N /\ i <= Len(Trace[l].ev)) => \A w \in EventBad(st, Trace[l].ev[i], Trace[l]) : Reject(l, w)
+\* clauses evaluated at the end of a session
+EndOK == (l <= N /\ i = Len(Trace[l].ev) + 1) => \A w \in FinalBad(st, Trace[l]) : Reject(l, w)
+\* design conformance: information only
 Drift(k, what) == PrintT(<<"DRIFT", k, what>>)
-DesignOK(s, e, S) ==
-  CASE e.k = "SinkWrite" /\ Worker(s, S) ->
-         /\ s.closecall \/ Drift(l, "output before end of input")      \* WReadPipe: EOF only after the write side is closed
-         /\ ~s.exit \/ Drift(l, "sink write after worker exit")         \* WExit1 follows the probe
-    [] e.k = "hook.writer.exit" ->
-         (e.e # "nil" \/ s.lastn = 0) \/ Drift(l, "no zero-length probe")   \* WProbeSink is the last sink call
-    [] e.k = "hook.writer.closewaited" -> s.exit \/ Drift(l, "Close passed wg.Wait before worker exit")   \* PCloseRet needs wgdone
-    [] e.k = "CloseRet" /\ Worker(s, S) -> s.waited \/ Drift(l, "CloseRet without closewaited")
-    [] OTHER -> TRUE
-Design == (l <= N /\ i <= Len(Trace[l].ev)) => DesignOK(st, Trace[l].ev[i], Trace[l])
+Design == (l <= N /\ i <= Len(Trace[l].ev)) => \A w \in DesignBad(st, Trace[l].ev[i], Trace[l]) : Drift(l, w)
 
 Total == FoldSeq(LAMBDA x, acc : acc + Len(x.ev) + 1, 0, Trace)
 AcceptedAll == TLCGet("stats").diameter = Total + 1
